@@ -220,6 +220,10 @@ fn check_join<P: PathVal>(
                     format!("returned {:?}, lexical resolution gives {:?}", s, w),
                 ));
             } else {
+                // (the accessors run under a guard of their own: a panic in one of them is a
+                // finding about that accessor, not the end of the sweep)
+                let sub = guard(|| {
+                let mut out: Vec<Found> = vec![];
                 if !canonical(&s) {
                     out.push(f("not-canonical", format!("returned {:?}", s)));
                 }
@@ -269,6 +273,15 @@ fn check_join<P: PathVal>(
                 }
                 if !s.is_empty() && r.same(&r.par()) {
                     out.push(f("eq", format!("{:?} equals its parent", s)));
+                }
+                out
+                });
+                match sub {
+                    Ok(v) => out.extend(v),
+                    Err(m) => out.push(f(
+                        "accessor-panic",
+                        format!("is_root/parent/filename/extension/root of {:?} panicked: {}", s, m),
+                    )),
                 }
             }
         }
@@ -321,7 +334,8 @@ fn sweep<P: PathVal>(
     l_assoc: usize,
     sigma: &[char],
 ) -> (u64, Vec<Found>, HashSet<String>) {
-    let bases = ["", "/a", "/a/b", "/a.b", "/é/a", "/a/b/a"];
+    // (the last two are 15 and 20 bytes long: word-at-a-time scans of long paths)
+    let bases = ["", "/a", "/a/b", "/a.b", "/é/a", "/a/b/a", "/aaaa/bbbb/cccc", "/a/b/a/b/.a/b/a/b/a"];
     let args = strings(sigma, l);
     let short = strings(sigma, l_assoc);
     let res: Vec<(u64, Vec<Found>, HashSet<String>)> = bases
@@ -355,19 +369,34 @@ fn sweep<P: PathVal>(
                         continue;
                     }
                     n += 1;
-                    let lhs = pa.j(b);
-                    let rhs = bp.j(&format!("{}/{}", a, b));
-                    if let (Ok(x), Ok(y)) = (&lhs, &rhs) {
-                        if x.s() != y.s() || !x.same(y) {
-                            out.push(Found { sig: format!("{}|join-associativity", api), what: format!("{}: join(join({:?},{:?}),{:?}) = {:?} but join({:?},{:?}) = {:?}", api, base, a, b, x.s(), base, format!("{}/{}", a, b), y.s()) });
+                    let sub = guard(|| {
+                        let lhs = pa.j(b);
+                        let rhs = bp.j(&format!("{}/{}", a, b));
+                        if let (Ok(x), Ok(y)) = (&lhs, &rhs) {
+                            if x.s() != y.s() || !x.same(y) {
+                                return Some(Found { sig: format!("{}|join-associativity", api), what: format!("{}: join(join({:?},{:?}),{:?}) = {:?} but join({:?},{:?}) = {:?}", api, base, a, b, x.s(), base, format!("{}/{}", a, b), y.s()) });
+                            }
                         }
+                        None
+                    });
+                    match sub {
+                        Ok(Some(f)) => out.push(f),
+                        Ok(None) => {}
+                        Err(m) => out.push(Found { sig: format!("{}|join-associativity|panic", api), what: format!("{}: join(join({:?},{:?}),{:?}) panicked: {}", api, base, a, b, m) }),
                     }
                 }
             }
             // plain names: parent / filename round trip; equality across instances
             for name in ["a", "ab", "a.b", "é", ".a", "a.", "a..b", "…"] {
                 n += 1;
-                match bp.j(name) {
+                let joined = match guard(|| (bp.j(name), bp.j(name).ok().map(|c| (c.par(), c.fname())))) {
+                    Ok((j, _)) => j,
+                    Err(m) => {
+                        out.push(Found { sig: format!("{}|child-roundtrip|panic", api), what: format!("{}: join({:?},{:?}) / parent / filename panicked: {}", api, base, name, m) });
+                        continue;
+                    }
+                };
+                match joined {
                     Ok(c) => {
                         if !c.par().same(&bp) || c.fname() != name {
                             out.push(Found { sig: format!("{}|child-roundtrip", api), what: format!("{}: join({:?},{:?}): parent {:?} filename {:?}", api, base, name, c.par().s(), c.fname()) });
@@ -539,7 +568,7 @@ pub fn run_c06(ctx: &Ctx) -> i32 {
     let r2 = VfsPath::new(MemoryFS::new());
     let (n1, mut f1, mut c1) = sweep("VfsPath", &r1, &r2, l, la, &SIGMA);
     println!(
-        "  [VfsPath strings <= {} over {{/ . a b é}} x 6 bases] evaluations={} findings={}",
+        "  [VfsPath strings <= {} over {{/ . a b é}} x 8 bases] evaluations={} findings={}",
         l,
         n1,
         f1.len()
@@ -644,7 +673,7 @@ pub fn run_c06(ctx: &Ctx) -> i32 {
         "traces_validated_against_impl": n1 + n2 + t3 + t4 + extra,
         "evaluations": n1 + n2 + t3 + t4 + extra,
         "distinct_nontrivial": classes.len(),
-        "rule": format!("every argument string over {{'/', '.', 'a', 'b', 'é'}} of length <= {} joined onto 6 bases, for VfsPath and AsyncVfsPath; associativity for all pairs of strings of length <= {}; BFS over path values with a 3-segment join language + parent + root to depth {}; every result compared with the lexical-resolution reference; classes = (argument shape, result class)", l, la, depth),
+        "rule": format!("every argument string over {{'/', '.', 'a', 'b', 'é'}} of length <= {} joined onto 8 bases (two of them 15 and 20 bytes long), for VfsPath and AsyncVfsPath; associativity for all pairs of strings of length <= {}; BFS over path values with a 3-segment join language + parent + root to depth {}; every result compared with the lexical-resolution reference; classes = (argument shape, result class)", l, la, depth),
         "samples": ["a/../b", "/a/./é", "..//a.b", "a/", "/"],
         "exhaustive": true,
         "bounds": {"max_string_length": l, "associativity_max_length": la, "chain_depth": depth},
